@@ -458,6 +458,10 @@ class Interp:
         return self.eval(node, env, func, depth)
 
     def eval(self, node, env, func, depth):
+        ln = getattr(node, "lineno", None)
+        if ln is not None and hasattr(self.dom, "cur_line"):
+            self.dom.cur_line = ln
+            self.dom.cur_func = func.qualname
         m = getattr(self, "e_" + type(node).__name__, None)
         if m is None:
             raise AnalysisError("%s:%d unsupported expression %s" % (func.qualname, getattr(node, "lineno", 0), type(node).__name__))
@@ -914,7 +918,7 @@ class Interp:
         if isinstance(f, ModuleRef):
             return self.call_builtin(f.name, args, kwargs, node, func)
         if callable(f):
-            if any(isinstance(a, SArr) for a in args):
+            if getattr(f, "_elementwise", False) and any(isinstance(a, SArr) for a in args):
                 ops = [a if isinstance(a, SArr) else self.lift(a) for a in args]
                 return self.stn.zip_map(lambda *vals: f(*vals), *ops)
             return f(*args, **kwargs)
